@@ -241,3 +241,11 @@ def test_fixed_C14_scan_start_hidden_in_ignored_span():
     for lexer in ('basic', 'contextual'):
         p = Lark(g, parser='lalr', lexer=lexer)
         assert [m.range for m in p.scan('//a=1\nb=2')] == [(2, 5), (6, 9)]
+
+
+def test_fixed_C19_rule_named_like_transformer_attribute():           # d0a2b8e
+    from lark.reconstruct import Reconstructor
+    for name in ('tokens', 'term_subs', 'transform'):
+        p = Lark('start: %s\n%s: A B\nA: "a"\nB: "b"\n%%ignore " "\n' % (name, name), parser='lalr', maybe_placeholders=False)
+        t = p.parse('ab')
+        assert p.parse(Reconstructor(p).reconstruct(t)) == t
